@@ -1,12 +1,15 @@
 check("C18", "model_checking",
       "TLC enumerates the full product of command-line configurations of Cli.tla (subcommand x verbosity x colour x arrows x wasm x out-dir x "
-      "backend sources x backend status x input kind x modules x path form, 12240 configurations) with the observables the rule prescribes "
+      "backend sources x backend status (exit / killed by a signal) x input kind x modules x path form, 27 072 configurations) with the observables the rule prescribes "
       "(exit status, selected backend, .pn.ll per module under the out dir, rendered diagnostics, no ESC under --color=never, ASCII frames "
       "under --arrows=ascii, silent stdout, program output and status for run, backend arguments, wasm triple); each selected configuration is "
       "replayed against the real binary with recording fake backends (real lli for run). Thorough = the full product, quick = pairwise cover + sample. "
       "Second part (CliDiag.tla): every sample of the diagnostic catalogue (all files of tests/samples/invalid that show an error code, plus the "
       "lint-only samples; ~80 distinct codes) x subcommand x --color x --arrows (x --verbose, thorough): the options change the rendering only "
-      "(same codes, non-zero status, no ESC under --color=never, no non-ASCII character that is not quoted source under --arrows=ascii).",
+      "(same codes, non-zero status, no ESC under --color=never, no non-ASCII character that is not quoted source under --arrows=ascii). "
+      "Third part (CliArgs.tla): every base invocation with up to 2 (3) deviations among -o, backend / link arguments by flag and / or config file, "
+      "wasm in the config, broken config files, 1-3 input files in both orders, unreadable inputs, out dirs that are missing / deep / a file, core: and vendor: "
+      "paths, the same module twice, NO_COLOR / TERM=dumb, and the `penne fuzz tokens` product (1 746 / 13 074 + 84 configurations), each replayed on the real binary.",
       "Trusted: TLC, the fake backends, the reading of --silent as 'no visible output'. Absolute input paths are outside the property's "
       "quantifier (noted, not reported). The optimised build is the binary under test.",
       "TLA+ specs (Cli.tla, CliDiag.tla) + TLC enumeration of the configuration products, one implementation test per configuration on the real binary",
